@@ -275,6 +275,20 @@ func ruleR08u(c *Ctx, r *Report) {
 				}
 				n++
 				key := "close-on-every-exit@" + fnKey(body)
+				// a send outside a select cannot be interrupted by the listing's context
+				bare := ""
+				for _, h := range withAnon(body) {
+					eachInstr(h, func(i2 ssa.Instruction) {
+						if sd, ok := i2.(*ssa.Send); ok {
+							bare = c.Pos(sd.Pos())
+						}
+					})
+				}
+				if bare != "" {
+					r.Viol("send-under-select@"+fnKey(body), bare, "a key is sent with a plain blocking send: a consumer that cancels the listing and stops receiving leaves the goroutine, its snapshot and the open channel behind for ever (the pinned tree sends in a select with ctx.Done())")
+				} else {
+					r.Hold("send-under-select@"+fnKey(body), c.Pos(body.Pos()), "every send is a select case beside ctx.Done()")
+				}
 				deferred := false
 				closeBlocks := map[*ssa.BasicBlock]bool{}
 				eachInstr(body, func(i2 ssa.Instruction) {
@@ -457,4 +471,258 @@ func ruleR20p(c *Ctx, r *Report) {
 		return
 	}
 	r.Check(bad == "", key, c.Pos(fn.Pos()), "the entry is read (by value) before the once-only removal", bad+": removing entry i moves its successor into slot i, so a pointer or a late read calls the successor instead — a once-only callback is skipped and the next one runs twice")
+}
+
+// ---- round 10: the wrong sibling at a call into a dependency ------------------------------------------
+
+// R09w: Inspect applies the section limit before it lets go-cid allocate for the section's CID.
+func ruleR09w(c *Ctx, r *Report) {
+	fn, err := c.Func(modV2, "Reader", "Inspect")
+	if err != nil {
+		r.InfraFail("%v", err)
+		return
+	}
+	key := "limit-before-cid@" + fnKey(fn)
+	cids := callsToFunc(fn, pkgCid, "", "CidFromReader")
+	if len(cids) == 0 {
+		r.Undec(key, c.Pos(fn.Pos()), "no cid.CidFromReader call found in Inspect")
+		return
+	}
+	// the outcome "length <= limit" of a comparison of a value with the MaxAllowedSectionSize option
+	ok := condEdges(fn, func(base ssa.Value) (bool, bool) {
+		b, isB := base.(*ssa.BinOp)
+		if !isB {
+			return false, false
+		}
+		isLim := func(v ssa.Value) bool {
+			return loadsField(canon(v), modV2, "Options", "MaxAllowedSectionSize")
+		}
+		switch {
+		case isLim(b.Y) && b.Op == token.GTR, isLim(b.X) && b.Op == token.LSS:
+			return true, false
+		case isLim(b.Y) && b.Op == token.LEQ, isLim(b.X) && b.Op == token.GEQ:
+			return true, true
+		}
+		return false, false
+	})
+	if len(ok) == 0 {
+		r.Viol(key, c.Pos(fn.Pos()), "Inspect does not compare the section length with MaxAllowedSectionSize")
+		return
+	}
+	bad := ""
+	rs := reach(fn, nil, edgeSet(ok))
+	for _, ci := range cids {
+		if rs[ci.Block()] {
+			bad = fmt.Sprintf("cid.CidFromReader at %s runs before the section length has been held against MaxAllowedSectionSize", c.Pos(ci.Pos()))
+		}
+	}
+	r.Check(bad == "", key, c.Pos(fn.Pos()), "the CID of a section is parsed only after its length passed the limit", bad+": an over-limit section whose next bytes are a hostile or cut-off CID makes go-cid allocate for the digest (up to its own 32 MiB cap) and fail with its own error, instead of ErrSectionTooLarge before anything is allocated")
+}
+
+// R12u: the version of the file being resumed is read from the file itself.
+func ruleR12u(c *Ctx, r *Report) {
+	n, bad := 0, ""
+	for _, fn := range c.RepoFuncs() {
+		for _, ci := range callsToFunc(fn, pkgStore, "", "ResumableVersion") {
+			n++
+			for _, o := range origins(ci.Common().Args[0], originOpts{}) {
+				if o.Kind == "call" && (funcIs(o.Fn, "io", "", "NewSectionReader") || funcIs(o.Fn, "io", "", "LimitReader")) {
+					bad = fmt.Sprintf("%s sniffs the version at %s through a bounded window (%s) instead of the file handed in", fnKey(rootFuncOf(fn)), c.Pos(ci.Pos()), o.Fn.Name())
+				}
+			}
+		}
+	}
+	if n == 0 {
+		r.Undec("version-sniff-source@stores", "-", "no call of store.ResumableVersion found")
+		return
+	}
+	r.Check(bad == "", "version-sniff-source@stores", "-", "ResumableVersion reads the file (or backing) the store was opened on", bad+": a window sized by the CARv2 data offset cuts a CARv1 header with roots short, and every reopen of a CARv1 the store itself wrote is refused")
+}
+
+// R13s: the report lists the roots in their own text form.
+func ruleR13s(c *Ctx, r *Report) {
+	fn, err := c.Func(pkgCmdLib, "", "InspectCar")
+	if err != nil {
+		r.InfraFail("%v", err)
+		return
+	}
+	key := "roots-as-they-print@" + fnKey(fn)
+	n, bad := 0, ""
+	for _, g := range withNewCallees(fn) {
+		eachInstr(g, func(in ssa.Instruction) {
+			ci, ok := in.(*ssa.Call)
+			if !ok {
+				return
+			}
+			f := calleeFunc(ci.Common())
+			if f == nil || f.Pkg() == nil || f.Pkg().Path() != pkgCid {
+				return
+			}
+			if _, rn := recvTypeName(f); rn != "Cid" {
+				return
+			}
+			switch f.Name() {
+			case "String":
+				n++
+			case "StringOfBase", "Encode":
+				bad = fmt.Sprintf("a CID is rendered with %s at %s", f.Name(), c.Pos(ci.Pos()))
+			}
+		})
+	}
+	if n == 0 && bad == "" {
+		r.Undec(key, c.Pos(fn.Pos()), "InspectCar renders no CID with String()")
+		return
+	}
+	r.Check(bad == "", key, c.Pos(fn.Pos()), "roots are rendered with Cid.String()", bad+": a fixed multibase cannot encode a CIDv0, so inspection of an archive with a Qm… root fails after the library's inspection succeeded")
+}
+
+// R17h: the output directory is resolved as the user spelled it.
+func ruleR17h(c *Ctx, r *Report) {
+	fn, err := c.Func(pkgCmdLib, "", "ExtractToDir")
+	if err != nil {
+		r.InfraFail("%v", err)
+		return
+	}
+	key := "output-dir-as-given@" + fnKey(fn)
+	var outDir *ssa.Parameter
+	for _, p := range fn.Params {
+		if b, ok := p.Type().Underlying().(*types.Basic); ok && b.Kind() == types.String {
+			outDir = p
+		}
+	}
+	n, bad := 0, ""
+	for _, ci := range callsToFunc(fn, "path/filepath", "", "EvalSymlinks") {
+		n++
+		if outDir == nil || canon(ci.Common().Args[0]) != ssa.Value(outDir) {
+			bad = fmt.Sprintf("filepath.EvalSymlinks at %s is given something other than the output directory parameter itself", c.Pos(ci.Pos()))
+		}
+	}
+	if n == 0 {
+		r.Undec(key, c.Pos(fn.Pos()), "ExtractToDir does not resolve the output directory with filepath.EvalSymlinks")
+		return
+	}
+	r.Check(bad == "", key, c.Pos(fn.Pos()), "EvalSymlinks(outputDir) on the parameter", bad+": a lexical clean-up first (filepath.Abs, Clean, Join) cancels `link/..` before the link is resolved, so the directory written to is not the one the operating system would reach by that name")
+}
+
+// R12w: two root lists match only when they hold the same roots the same number of times.
+// CarHeader.Matches compares lists of equal length in any order; containment alone (every root of
+// one occurs in the other) takes [A A] for [A B]. Whatever the implementation — marking matched
+// entries, counting in a map, sorting both sides — it keeps state per root while it compares.
+func ruleR12w(c *Ctx, r *Report) {
+	fn, err := c.Func(pkgV1, "CarHeader", "Matches")
+	if err != nil {
+		r.InfraFail("%v", err)
+		return
+	}
+	key := "roots-as-multiset@" + fnKey(fn)
+	fns := withNewCallees(fn)
+	// helpers of the pinned tree that Matches calls in its own package
+	seen := map[*ssa.Function]bool{}
+	for _, g := range fns {
+		seen[g] = true
+	}
+	for _, g := range append([]*ssa.Function{}, fns...) {
+		eachInstr(g, func(in ssa.Instruction) {
+			if ci, ok := in.(ssa.CallInstruction); ok {
+				if t := staticTarget(ci.Common()); t != nil && t.Blocks != nil && t.Pkg != nil && t.Pkg.Pkg.Path() == pkgV1 && !seen[t] {
+					seen[t] = true
+					fns = append(fns, t)
+				}
+			}
+		})
+	}
+	nEq, state := 0, false
+	for _, g := range fns {
+		eachInstr(g, func(in ssa.Instruction) {
+			switch x := in.(type) {
+			case *ssa.Call:
+				f := calleeFunc(x.Common())
+				if funcIs(f, pkgCid, "Cid", "Equals") {
+					nEq++
+				}
+				if f != nil && f.Pkg() != nil && (f.Pkg().Path() == "sort" || f.Pkg().Path() == "slices") && strings.HasPrefix(f.Name(), "Sort") || funcIs(f, "sort", "", "Slice") || funcIs(f, "sort", "", "SliceStable") {
+					state = true
+				}
+			case *ssa.MapUpdate:
+				state = true
+			case *ssa.Store:
+				if _, isElem := x.Addr.(*ssa.IndexAddr); isElem {
+					state = true
+				}
+			}
+		})
+	}
+	r.Count("functions examined for the root comparison", len(fns))
+	if nEq == 0 && !state {
+		r.Undec(key, c.Pos(fn.Pos()), "neither Cid.Equals nor any per-root bookkeeping found in CarHeader.Matches")
+		return
+	}
+	r.Check(state, key, c.Pos(fn.Pos()), "the comparison marks, counts or sorts: each root is matched at most once", "CarHeader.Matches decides by containment alone (no entry is marked, counted or sorted): a file with roots [A A] matches a request for [A B], so a session with different roots is resumed on it — its index is cut off and its header zeroed — instead of being refused with the file untouched")
+}
+
+// R15t: the counting pass and the writing pass agree on a block that is loaded again. The teeing link
+// system writes a block once per session (its record map is the "already written" set); the counting
+// link system, whose total becomes the announced size, must count it once too: the additions to the
+// running total sit behind a not-seen-before test.
+func ruleR15t(c *Ctx, r *Report) {
+	fn, err := c.Func(pkgLoader, "", "CountingLinkSystem")
+	if err != nil {
+		r.InfraFail("%v", err)
+		return
+	}
+	op := readOpenerOf(fn)
+	if op == nil {
+		r.Undec("count-once@"+fnKey(fn), c.Pos(fn.Pos()), "opener closure not found")
+		return
+	}
+	key := "count-once@" + fnKey(op)
+	// additions to the counter's total in the opener (and the helpers spliced into it)
+	var adds []*ssa.Store
+	eachInstr(op, func(in ssa.Instruction) {
+		st, ok := in.(*ssa.Store)
+		if !ok {
+			return
+		}
+		fa, ok := st.Addr.(*ssa.FieldAddr)
+		if !ok || !fieldAddrIs(fa, pkgLoader, "counter", "totalRead") {
+			return
+		}
+		adds = append(adds, st)
+	})
+	if len(adds) == 0 {
+		r.Undec(key, c.Pos(op.Pos()), "the opener does not add to counter.totalRead")
+		return
+	}
+	// the "seen before" outcome of a comma-ok map lookup
+	seen := condEdges(op, func(base ssa.Value) (bool, bool) {
+		if ex, ok := base.(*ssa.Extract); ok && ex.Index == 1 {
+			if lk, ok := ex.Tuple.(*ssa.Lookup); ok && lk.CommaOk {
+				return true, true
+			}
+		}
+		return false, false
+	})
+	bad := ""
+	if len(seen) == 0 {
+		bad = "the counting opener has no already-counted test"
+	} else {
+		for _, e := range seen {
+			rs := reachFromEdge(op, e, nil)
+			for _, st := range adds {
+				if rs[st.Block()] {
+					bad = fmt.Sprintf("the size of a block that was counted before is added again at %s", c.Pos(st.Pos()))
+				}
+			}
+			// nor are its data bytes: the reader handed back is not the counting one
+			for _, ret := range returnsOf(op) {
+				if !rs[ret.Block()] || len(ret.Results) == 0 {
+					continue
+				}
+				if mi, ok := ret.Results[0].(*ssa.MakeInterface); ok && isNamed(mi.X.Type(), pkgLoader, "countingReader") && ret.Block() == e.From.Succs[e.Succ] {
+					bad = fmt.Sprintf("for a block that was counted before the opener returns a counting reader at %s: its data bytes are counted again", c.Pos(ret.Pos()))
+				}
+			}
+		}
+	}
+	r.Check(bad == "", key, c.Pos(op.Pos()), "a block's section size is added only when the block is counted for the first time", bad+": the teeing link system writes a block once however often the traversal loads it, so with a repeated link and link-visit-once off the announced size exceeds the bytes written and the writer fails with ErrSizeMismatch after the fact")
 }
